@@ -24,7 +24,7 @@ Section SimT.
   Proof. intros H NR L. eapply run_mono; eassumption. Qed.
 
   (** ** text *)
-  Lemma chars_sim_t ps o r k : Std cx ps -> opts_ok ps o -> r <> OutOfFuel ->
+  Lemma chars_sim_t ps o r k : Std cx ps -> opts_ok2 ps o -> r <> OutOfFuel ->
     forall cs st q pre pos fol,
     forallb (inert cx) cs = true -> skipn pos s = cs ++ fol ->
     R k (TCollect ps o (push_pending st (pre ++ cs) q) (pos + length cs)) = r ->
@@ -48,7 +48,7 @@ Section SimT.
         exact H.
   Qed.
 
-  Lemma text_sim_t ps o r k st pos ws c cs fol : Std cx ps -> opts_ok ps o -> r <> OutOfFuel ->
+  Lemma text_sim_t ps o r k st pos ws c cs fol : Std cx ps -> opts_ok2 ps o -> r <> OutOfFuel ->
     ws_ok ws = true -> forallb (inert cx) (c :: cs) = true -> skipn pos s = ws ++ (c :: cs) ++ fol ->
     R k (TCollect ps o (push_pending st (ws ++ c :: cs) pos) (pos + length (ws ++ c :: cs))) = r ->
     R (k + 8 * length (ws ++ c :: cs)) (TCollect ps o st pos) = r.
@@ -71,7 +71,7 @@ Section SimT.
 
   (** ** one item *)
   Lemma item_sim_t i ps o st pos fol k r :
-    Std cx ps -> opts_ok ps o -> r <> OutOfFuel ->
+    Std cx ps -> opts_ok2 ps o -> r <> OutOfFuel ->
     ok_item cx ps i (hd_error fol) = true ->
     skipn pos s = unparse_item i ++ fol ->
     R k (TCollect ps o (absorb_item cx ps pos st i) (pos + ilen i)) = r ->
@@ -239,7 +239,7 @@ Section SimT.
 
   (** ** the simulation, either mode *)
   Theorem items_sim_t : forall l ps o st pos fol k r,
-    Std cx ps -> opts_ok ps o -> r <> OutOfFuel ->
+    Std cx ps -> opts_ok2 ps o -> r <> OutOfFuel ->
     ok_items cx ps l (hd_error fol) = true ->
     skipn pos s = unparse_items l ++ fol ->
     R k (TCollect ps o (fst (absorb cx ps pos st l)) (pos + length (unparse_items l))) = r ->
